@@ -75,5 +75,7 @@ func (*c17Controller) Close() {}
 func TestVerifC17(t *testing.T) {
 	c17run.Run(t, map[string]func(ctx context.Context) c17run.Group{
 		"controller": func(_ context.Context) c17run.Group { return &c17Controller{} },
+		// the sync committee duty pipeline through the real scheduling path (zz_verif_c17_sync_test.go)
+		"syncduty": func(_ context.Context) c17run.Group { return &c17Sync{} },
 	})
 }
